@@ -116,6 +116,27 @@ func (s *Scn) do(op string) Outcome {
 		return Outcome{Err: err}
 	}
 
+	if s.Remote != nil && isLSOp(name) {
+		if s.RemoteDead {
+			return ill
+		}
+		res, err := s.Remote.Do(op)
+		if err != nil {
+			s.RemoteDead = true
+			return Outcome{Err: fmt.Errorf("worker died")}
+		}
+		s.recordLedger()
+		switch {
+		case res == "ok":
+			return Outcome{}
+		case res == "ack":
+			return Outcome{Ack: true}
+		case res == "illegal":
+			return ill
+		}
+		return Outcome{Err: fmt.Errorf("%s", strings.TrimPrefix(res, "err:"))}
+	}
+
 	switch name {
 	// ---------------- application ----------------
 	case "W1":
@@ -484,6 +505,14 @@ func (s *Scn) do(op string) Outcome {
 		return Outcome{}
 	}
 	panic("scn: unknown op " + op)
+}
+
+func isLSOp(name string) bool {
+	switch name {
+	case "S", "RS", "RSL", "SW", "SD", "LC", "SNAP", "FSNAP", "CMP", "RETL0", "RET9", "CL", "START", "RSET":
+		return true
+	}
+	return false
 }
 
 func (s *Scn) tickIf() {
